@@ -1211,6 +1211,9 @@ class ktensor:
         wsubs, _ = W.find()
 
         # Assemble return array
+        if wsubs.size == 0:
+            # Mask without nonzeros selects nothing
+            return np.zeros((0, 1))
         nvals = wsubs.shape[0]
         vals = np.zeros((nvals, 1))
         for j in range(self.ncomponents):
